@@ -3,6 +3,9 @@ import Gws.Model.Conc.TaskQueue
 /-! Suite `taskq`: action sequences on the worker queue (maxConcurrency from the case line). -/
 namespace Drv
 
+/-- `p<id>` submit, `n<id>` the running job `id` completes.  The case line may also contain `z` (a nil task is
+submitted: `getJob` enqueues nothing) and `x` (the connection ends): neither is an action of the queue's
+transition system — they must leave the queue exactly as it is — so they are skipped here. -/
 def parseAct (s : String) : Option TQ.Act :=
   if s.startsWith "p" then (s.drop 1).toString.toNat?.map TQ.Act.push
   else if s.startsWith "n" then (s.drop 1).toString.toNat?.map TQ.Act.next
